@@ -2148,8 +2148,11 @@ impl NemethNestingChars {
             return "".to_string();
         } else if name == "mfrac" {
             // have we already computed the value?
+            //  (the attribute can also arrive with the input, e.g. MathML returned by MathCAT and sent back: only a value this code could have stored is used)
             if let Some(value) = node.attribute_value(NEMETH_FRAC_LEVEL) {
-                return value.to_string();
+                if !value.is_empty() && !repeat_char.is_empty() && value.replace(repeat_char, "").is_empty() {
+                    return value.to_string();
+                }
             }
 
             let num_value = NemethNestingChars::nemeth_frac_value(&as_element(children[0]), repeat_char);
